@@ -129,6 +129,7 @@ class Ctx:
         self.groups = {}          # random group string -> canonical id
         self.role_count = {}
         self.log = []
+        self.lists = case.get("lists")      # answers k < 50 stand for these device lists (lazily_stage cases)
 
     def msg_of(self, v):
         t = v[0]
@@ -186,6 +187,8 @@ class Ctx:
                 return ["close", k["exit_status"], r]
             if c in ("stage", "unstage") and dev is not None and not a and set(k) == {"group"}:
                 return [c, dev, self.group(k["group"], c)]
+            if c == "stage" and dev is not None and not a and not k:
+                return [c, dev, 0]                   # lazily_stage_wrapper's Msg('stage', root): no group
             if c == "wait" and o is None and not a and set(k) == {"group"}:
                 return ["wait", self.group(k["group"], None)]
             if c == "subscribe" and o is None and len(a) == 2 and not k and id(a[0]) in self.func_id and a[1] in SUBS_NAMES:
@@ -221,31 +224,39 @@ class Ctx:
         return g
 
 
-def resp(k):
-    if k is None or k < 50:
-        return k
-    return FakeStatus(k)
+def resp(k, ctx=None):
+    if k is None:
+        return None
+    if k >= 50:
+        return FakeStatus(k)
+    if ctx is not None and ctx.lists is not None:
+        return [ctx.devs[i] for i in ctx.lists[k]]
+    return k
 
 
-def canon_val(v):
+def canon_val(v, ctx=None):
     if v is None or (isinstance(v, int) and not isinstance(v, bool)):
         return v
     if isinstance(v, FakeStatus):
         return v.k
+    if isinstance(v, list) and ctx is not None and ctx.lists is not None and all(isinstance(d, Dev) for d in v):
+        ids = [d.idx for d in v]
+        if ids in ctx.lists:
+            return ctx.lists.index(ids)
     return "?" + repr(v)
 
 
 def step(ctx, gen, inp):
     try:
         if inp[0] == "send":
-            m = gen.send(resp(inp[1]))
+            m = gen.send(resp(inp[1], ctx))
         elif inp[0] == "throw":
             m = gen.throw(TEXC[inp[1]]())
         else:
             gen.close()
             return ["c"], False
     except StopIteration as e:
-        return ["r", canon_val(e.value)], False
+        return ["r", canon_val(e.value, ctx)], False
     except BaseException as e:  # noqa: BLE001
         return ["e", exc_name(e)], False
     return ["y"] + ctx.observe(m), True
